@@ -216,7 +216,8 @@ let () =
           end
         | 'R' ->
           impl_r := body;
-          if not !case_bad && body <> !model_r then begin
+          if body = "?" then case_bad := true   (* outcome depends on Go map order: the case ends here, uncompared *)
+          else if not !case_bad && body <> !model_r then begin
             case_bad := true; incr bad;
             if !bad <= 25 then
               Printf.printf "MISMATCH case=%s step=%d op=[%s] RESULT impl=%s model=%s\n  ops: %s\n" !case_id !step_i !cur_op body !model_r (Buffer.contents ops_so_far)
